@@ -368,12 +368,10 @@ Definition remove_dups (f : file) (mod_ : bool) : file :=
 Definition sort_block (h : list hline) (less : list str -> list str -> bool) (b : hblock) : hblock :=
   block_with_lines b (stable_sort (fun i j => less (hl_tok (hget h i)) (hl_tok (hget h j))) (hb_lines b)).
 
-Definition go121 : str := B "v1.21".
-
 Definition sort_blocks (f : file) : file :=
   let f1 := remove_dups f true in
   let sem := match f_go f1 with
-             | Some g => 0 <=? semver_compare (118 :: go_vers g) go121
+             | Some g => use_semantic_sort (go_vers g)
              | None => false
              end in
   let s := fsyn f1 in
